@@ -76,6 +76,13 @@ fn main() {
                 }
             });
         }
+        "fuzzcase" => {
+            // p2v fuzzcase <ID> <file with the raw fuzz input>: judge it, write a replay file, print VIOLATION lines
+            if args.len() < 4 {
+                usage();
+            }
+            std::process::exit(fuzzcase(&args[2], &args[3]));
+        }
         "list" => {
             for id in props::ALL {
                 println!("{}", id);
@@ -378,6 +385,37 @@ fn check(id: &str, tier: Tier) -> i32 {
     } else {
         0
     }
+}
+
+fn fuzzcase(id: &str, file: &str) -> i32 {
+    let data = match std::fs::read(file) {
+        Ok(d) => d,
+        Err(_) => return 2,
+    };
+    let id = id.to_string();
+    let file = file.to_string();
+    p2v::hx::p2::with_big_stack(move || {
+        install_panic_hook();
+        let vs = p2v::hx::fuzz::fuzz_one(&id.to_lowercase(), &data);
+        let open = open_signatures(&id);
+        let mut code = 0;
+        for v in vs {
+            if open.iter().any(|k| k == &v.sig) {
+                continue;
+            }
+            let dir = Path::new(VERIF_DIR).join("evidence/replay");
+            let _ = std::fs::create_dir_all(&dir);
+            let h = p2v::hx::choices::hash_bytes(&data);
+            let out = dir.join(format!("{}-fuzz-{:016x}.json", id, h));
+            let j = serde_json::json!({"property": id, "section": "fuzz", "signature": v.sig, "detail": v.detail, "case": {"bytes": p2v::hx::pkt::hex(&data)}, "found_by": format!("libFuzzer input {}", file)});
+            let _ = std::fs::write(&out, serde_json::to_string_pretty(&j).unwrap_or_default());
+            println!("VIOLATION property={} replay={}", id, out.display());
+            println!("  signature: {}", v.sig);
+            println!("  detail: {}", v.detail.chars().take(1500).collect::<String>());
+            code = 1;
+        }
+        code
+    })
 }
 
 fn replay(path: &str) -> i32 {
